@@ -452,3 +452,33 @@ def c10_class_scalar(viol, inp, param):
         return False
     path, got, want = json.loads(viol["detail"])
     return len(got) == 1 and len(want) > 1
+
+
+# ---- C07: recursive globs that create objects multiply them --------------------------------------
+@classifier("c07_recursive_globs_multiply_objects")
+def c07_rglobs(viol, inp, param):
+    # two or more ** / *** globs in the program, each of which may create objects the other matches again;
+    # the detail carries the number of recursive globs of the input (a syntactic fact logged by the driver)
+    if viol["aspect"] == "compile-time-not-proportional-to-input":
+        return json.loads(viol["detail"])[2] >= 2
+    if viol["aspect"] == "stage-did-not-terminate":
+        d = json.loads(viol["detail"])
+        return d[0] == "compile" and d[2] >= 2
+    return False
+
+
+@classifier("c03_no_final_newline_one_line_file_or_array")
+def c03_no_final_nl(viol, inp, param):
+    f = _fmt_feats(viol)
+    return viol["aspect"] == "formatting-twice-changes-the-text" and "no-final-newline" in f and ("file-on-one-line" in f or "array-then-eof" in f)
+
+
+@classifier("c02_array_range_ends_behind_the_newline")
+def c02_array_end(viol, inp, param):
+    # detail = [which, child range, parent range], a range = [line, column, byte, end line, end column, end byte, kind]:
+    # the child ends at column 0 of a later line, right behind a newline that follows the closing bracket
+    if viol["aspect"] != "node-range-not-nested-in-its-parent":
+        return False
+    child = json.loads(viol["detail"])[1]
+    lines = _input_bytes(inp).split(b"\n")
+    return child[4] == 0 and child[3] > child[0] and child[3] - 1 < len(lines) and lines[child[3] - 1].rstrip(b" \t\r").endswith(b"]")
